@@ -47,7 +47,7 @@ RULE = ("every way a stream can end (RST with each code, trailers / trailers-onl
 
 
 def gen(rng, tier):
-    n = {"quick": 450, "thorough": 40000, "search": 5000}[tier]
+    n = {"quick": 450, "thorough": 25000, "search": 5000}[tier]
     reps = {"quick": 1, "thorough": 6, "search": 3}[tier]
     for _ in range(reps):
         for ops, tag in g.stream_lifecycles(rng):
